@@ -26,6 +26,12 @@ def handleValidate (op : String) (j : Json) : Except String Json := do
     match validateTarget (optField j "target" |>.bind (·.getStr?.toOption)) with
     | some t => return Json.str t
     | none => return Json.null
+  | "signature" =>
+    -- parameter names of a [Potential-Form] signature (separation variable first): accepted iff no two are equal up to case
+    let ns ← getStrs j "names"
+    match sigClash [] ns with
+    | none => return Json.str "ok"
+    | some (a, b) => return arrJ [Json.str a, Json.str b]
   | "key" =>
     match splitKey (← getStrs j "parts") with
     | some (a, b) => return arrJ [Json.str a, Json.str b]
